@@ -343,7 +343,7 @@ Proof. reflexivity. Qed.
 
 (* server/core/basic_cluster.go: (BasicCluster).CheckAndPutLoadedRegion, body *)
 Lemma src_bc_CheckAndPutLoadedRegion_ok : Gen_C06.src_bc_CheckAndPutLoadedRegion =
-  "{ v3 := v0.CheckAndPutRegion(v1) if len(v3) == 1 && v3[0] == v1 { if v4 := v0.GetRegion(v1.GetID()); v4 != nil { if v5 := v2(v4.GetMeta()); v5 != nil { } return nil } } return v3 }".
+  "{ v3 := v0.CheckAndPutRegion(v1) if len(v3) == 1 && v3[0] == v1 { if v4 := v0.GetRegion(v1.GetID()); v4 != nil { if v5 := v2(v4.GetMeta()); v5 != nil { } return nil } } v6 := v3[:0:0] for _, v7 := range v3 { if v7.GetID() <= v1.GetID() { v6 = append(v6, v7) } } return v6 }".
 Proof. reflexivity. Qed.
 
 (* server/server.go: (Server).createRaftCluster, body *)
